@@ -192,12 +192,14 @@ def make_fit_case(rng, system, exact=True, params=None):
     true = mk(system, true_p, U_true)
     with quiet():
         true.n_hkl = (1, 0.2, 0.1)
-    wl = rng.choice([1.0, 1.2, 0.8])
-    en = 12.39842 / wl
+    wl0 = rng.choice([1.0, 1.2, 0.8])
+    mixed = rng.random() < 0.5      # reflections recorded at different energies
     hc = HklCalculation(true, Constraints(rng.choice([{"qaz": 90, "alpha": 5, "mu": 3}, {"mu": 0, "nu": 0, "a_eq_b": True}, {"delta": 20, "psi": 30, "mu": 5}])))
     hkls = rng.sample(FIT_HKLS, rng.randint(7, 11))
     data = []
     for hkl in hkls:
+        wl = rng.choice([1.0, 1.2, 0.8, 0.65]) if mixed else wl0
+        en = 12.39842 / wl
         try:
             with quiet():
                 sols = hc.get_position(*hkl, wl)
